@@ -803,3 +803,94 @@ Example page_fits_ansi_refuted :
                     /\ map (@length N) (split_on 10%N sp) = [13; 10; 0]
   | _, _ => False end.
 Proof. split; [repeat constructor; nl_char|]. vm_compute. repeat split; reflexivity. Qed.
+
+(* ================= "help <path>" = "<path> --help" = "<path> -h": what the RUN does ================= *)
+(* help_same_page equates the help targets.  What a run does with the line (Model/Switches.v run_summary) is decided before
+   the target is looked up, in two different ways: for "help <path>" the resolver walks to the command "help" and parses the
+   line with its format, under the command's own leniency; for "<path> --help" the PRE_RESOLVE listener parses the line
+   leniently with the help command's format - there the first word lands on the pseudo-argument of the command name, is not
+   "help", and the whole path is moved to the argument "command".  Proofs/HelpRunLemmas.v: both parses are instances of
+   parse_spells (C01), which gives their values; in both "command" is set and the version switch is not.
+   The configuration (default_help_config): the global help option (defines_help), NO global argument, and the command
+   "help" as DefaultApplicationConfig.configure() defines it (is_help_command: named help, no alias, not anonymous, enabled,
+   no sub-command, the single argument "command" multi-valued, optional, string; default or not, lenient or not, with or
+   without options of its own).  The path: plain tokens, not empty, the first one not the word "help". *)
+From Clikit Require Import Proofs.FormatLemmas Proofs.FmtOkLemmas Proofs.HelpRunLemmas.
+(* each of the three runs shows the page of the help target of "help <path>" (help_page: AHelpCmd p), or reports the failure to
+   find it (AHelpFail k) *)
+Theorem help_same_page_run : forall cfg a debug path,
+  build_app cfg = Ok a -> default_help_config cfg = true ->
+  forallb lead_ok path = true -> path <> [] ->
+  (match path with t :: _ => str_eqb t S_help = false | [] => True end) ->
+  sm_action (run_summary debug a (S_help :: path)) = help_page a (S_help :: path) /\
+  sm_action (run_summary debug a (path ++ [T_help])) = help_page a (S_help :: path) /\
+  sm_action (run_summary debug a (path ++ [T_h])) = help_page a (S_help :: path).
+Proof. exact help_same_run. Qed.
+Print Assumptions help_same_page_run.
+Theorem help_same_action_run : forall cfg a debug path,
+  build_app cfg = Ok a -> default_help_config cfg = true ->
+  forallb lead_ok path = true -> path <> [] ->
+  (match path with t :: _ => str_eqb t S_help = false | [] => True end) ->
+  sm_action (run_summary debug a (S_help :: path)) = sm_action (run_summary debug a (path ++ [T_help])) /\
+  sm_action (run_summary debug a (S_help :: path)) = sm_action (run_summary debug a (path ++ [T_h])).
+Proof. exact help_same_action. Qed.
+Print Assumptions help_same_action_run.
+(* the value of the two parses behind it, for the format f of the help command: "help <path>" under any leniency, and
+   "<path> <switch>" - the arguments are the path placed on "command", the only option set is the switch *)
+Theorem help_line_parses : forall f a path len, fmt_inv f -> get_arguments_all f = [(a_name a, a)] ->
+  get_command_names_all f = [help_cname] -> a_multi a = true -> a_type a = TStr ->
+  forallb lead_ok path = true -> path <> [] ->
+  parse f len (S_help :: path) = Ok {| ar_opts := []; ar_args := help_args f path |}.
+Proof. intros. now apply (parse_help_line f a). Qed.
+Print Assumptions help_line_parses.
+Theorem switch_line_parses : forall f o sw len path x,
+  carries o f -> no_value o -> help_switch_of o sw -> forallb lead_ok path = true ->
+  parse f len path = Ok x -> ar_opts x = [] ->
+  parse f len (path ++ [sw]) = Ok {| ar_opts := [(S_help, VBool true)]; ar_args := ar_args x |}.
+Proof. exact parse_switch_value. Qed.
+Print Assumptions switch_line_parses.
+
+(* the DefaultApplicationConfig-like ex_dcfg satisfies the hypotheses; the three runs print the page of "server run" *)
+Example ex_run_hypotheses : default_help_config ex_dcfg = true /\ forallb lead_ok [SERVER] = true /\ str_eqb SERVER S_help = false.
+Proof. vm_compute. repeat split; reflexivity. Qed.
+Example ex_run_applied : forall a debug, build_app ex_dcfg = Ok a ->
+  sm_action (run_summary debug a [S_help; SERVER]) = sm_action (run_summary debug a [SERVER; T_help]) /\
+  sm_action (run_summary debug a [S_help; SERVER]) = sm_action (run_summary debug a [SERVER; T_h]).
+Proof. intros a debug Ha. apply (help_same_action_run ex_dcfg a debug [SERVER] Ha); try reflexivity. discriminate. Qed.
+Example ex_run_computed :
+  match build_app ex_dcfg with
+  | Ok a =>
+    sm_action (run_summary false a [S_help; SERVER]) = AHelpCmd [SERVER; RUN] /\
+    sm_action (run_summary false a [SERVER; T_help]) = AHelpCmd [SERVER; RUN] /\
+    sm_action (run_summary false a [SERVER; T_h]) = AHelpCmd [SERVER; RUN] /\
+    (* the same failure: "secret" takes an integer *)
+    sm_action (run_summary false a [S_help; SERVER; SECRET; ADD]) = AHelpFail ValueError /\
+    sm_action (run_summary false a [SERVER; SECRET; ADD; T_help]) = AHelpFail ValueError /\
+    sm_action (run_summary false a [SERVER; SECRET; ADD; T_h]) = AHelpFail ValueError /\
+    (* a word that names no command *)
+    sm_action (run_summary false a [S_help; X7]) = sm_action (run_summary false a [X7; T_help])
+  | Err _ => False end.
+Proof. vm_compute. repeat split; reflexivity. Qed.
+(* NEEDED - the first word is not "help": help_same_page_refuted_help_command above ("help help" prints the page of the help
+   command, "help --help" the application page).
+   NEEDED - no global argument.  The same configuration with two REQUIRED global arguments g1, g2 (a configuration that
+   extends DefaultApplicationConfig by add_argument): "help server" is parsed STRICTLY with the help command's format -
+   help, g1 = server, g2 missing - and the run fails (CannotParse: Not enough arguments (missing: "g2")), while the lenient
+   parse of "server --help" succeeds, leaves "command" unset, and the application page is printed.  Observed alike on the
+   Python code (ConsoleApplication over a DefaultApplicationConfig with add_argument("g1", REQUIRED), add_argument("g2",
+   REQUIRED): "help server" -> status 1, "server --help" / "server -h" -> name and version, status 0). *)
+Definition a_g1 : arg := {| a_name := [103;49]%N; a_flags := 1 + 16; a_default := VNone |}.
+Definition a_g2 : arg := {| a_name := [103;50]%N; a_flags := 1 + 16; a_default := VNone |}.
+Definition ex_dcfg_gargs : appcfg := {| ac_opts := [o_help; o_verbose]; ac_args := [a_g1; a_g2]; ac_cmds := [c_help; c_server] |}.
+Example help_same_run_needs_no_global_argument :
+  match build_app ex_dcfg_gargs with
+  | Ok a =>
+    default_help_config ex_dcfg_gargs = false /\ defines_help ex_dcfg_gargs = true /\
+    existsb is_help_command (ac_cmds ex_dcfg_gargs) = true /\
+    sm_action (run_summary false a [S_help; SERVER]) = AError CannotParse /\
+    sm_action (run_summary false a [SERVER; T_help]) = AHelpApp /\
+    sm_action (run_summary false a [SERVER; T_h]) = AHelpApp /\
+    (* the help targets agree all the same (help_same_page) *)
+    help_target a [S_help; SERVER] = help_target a [SERVER; T_help]
+  | Err _ => False end.
+Proof. vm_compute. repeat split; reflexivity. Qed.
